@@ -18,6 +18,10 @@ pub const APPSKEY: [u8; 16] = [0x01, 0x23, 0x45, 0x67, 0x89, 0xab, 0xcd, 0xef, 0
 pub const OTHER_NWKSKEY: [u8; 16] = [0x5a; 16];
 pub const DEVADDR: u32 = 0x2601_1234;
 pub const DEVEUI: [u8; 8] = [1, 2, 3, 4, 5, 6, 7, 8];
+/// Second credential set (a device re-provisioned for another join server): (DevEUI, JoinEUI, root key)
+pub fn creds(k: u8) -> ([u8; 8], [u8; 8], [u8; 16]) {
+    if k == 0 { (DEVEUI, APPEUI, APPKEY) } else { ([0xB1, 0xB2, 0xB3, 0xB4, 0xB5, 0xB6, 0xB7, 0xB8], [0x0B; 8], [0xB0, 0x0B, 0x1E, 0x5A, 0x42, 0x13, 0x37, 0x99, 0x01, 0x23, 0x45, 0x67, 0x89, 0xAB, 0xCD, 0xEF]) }
+}
 pub const APPEUI: [u8; 8] = [0x70, 0xb3, 0xd5, 0x7e, 0xd0, 0, 0, 0x11];
 
 pub const REGIONS: [&str; 9] = ["EU868", "US915", "AS923_1", "AU915", "EU433", "IN865", "AS923_2", "AS923_3", "AS923_4"];
@@ -294,6 +298,8 @@ pub struct Net {
     pub ref_last: Option<u32>,
     pub accepted: Vec<Vec<u8>>,
     pub delivered: Vec<Vec<u8>>,
+    /// credential set the device is configured with (and the network knows it by)
+    pub creds: u8,
 }
 
 /// The size limit the reference applies to a receive window. The device's own figure is used as long as it
@@ -319,10 +325,10 @@ pub fn spec_next_fcnt(last: Option<u32>, wire: u16) -> Option<u32> {
 
 impl Net {
     pub fn abp() -> Net {
-        Net { otaa_pending: None, joined: true, nwk: NWKSKEY, app: APPSKEY, devaddr: DEVADDR, ref_last: None, accepted: vec![], delivered: vec![] }
+        Net { otaa_pending: None, joined: true, nwk: NWKSKEY, app: APPSKEY, devaddr: DEVADDR, ref_last: None, accepted: vec![], delivered: vec![], creds: 0 }
     }
     pub fn unjoined() -> Net {
-        Net { otaa_pending: None, joined: false, nwk: [0; 16], app: [0; 16], devaddr: 0, ref_last: None, accepted: vec![], delivered: vec![] }
+        Net { otaa_pending: None, joined: false, nwk: [0; 16], app: [0; 16], devaddr: 0, ref_last: None, accepted: vec![], delivered: vec![], creds: 0 }
     }
 
     pub fn resolve(&self, f: &Fcnt) -> Option<u32> {
@@ -422,7 +428,7 @@ impl Net {
                         a
                     }),
                 };
-                let key = if matches!(tamper, Tamper::OtherSession) { OTHER_NWKSKEY } else { APPKEY };
+                let key = if matches!(tamper, Tamper::OtherSession) { OTHER_NWKSKEY } else { creds(self.creds).2 };
                 let mut b = refcodec::encode_join_accept(&d, &key);
                 if matches!(tamper, Tamper::BadMic) {
                     // corrupt one ciphertext byte of the last block: the decrypted MIC changes
@@ -441,10 +447,11 @@ impl Net {
     pub fn judge(&self, b: &[u8], max_len: u8) -> Judge {
         if let Some(dn) = self.otaa_pending {
             // join procedure in progress: only a JoinAccept under the root key counts
-            return match refcodec::decode_join_accept(b, &APPKEY) {
+            let appkey = creds(self.creds).2;
+            return match refcodec::decode_join_accept(b, &appkey) {
                 Some((plain, true)) => {
                     let desc = refcodec::join_accept_fields(&plain);
-                    let (nwk, app) = refcodec::derive_keys(&APPKEY, desc.join_nonce, desc.net_id, dn);
+                    let (nwk, app) = refcodec::derive_keys(&appkey, desc.join_nonce, desc.net_id, dn);
                     Judge::JoinAccept { nwk, app, devaddr: desc.devaddr, desc }
                 }
                 Some((_, false)) => Judge::Reject("joinaccept-bad-mic"),
@@ -552,6 +559,8 @@ pub enum Ev {
     JoinCycleF { rx1: Option<Frame>, rx2: Option<Frame>, fault_at: usize },
     /// snapshot the session through serde and restore it into the same device (C20)
     Persist,
+    /// the application configures another credential set for its next join (the network knows the device by it)
+    UseCreds(u8),
 }
 
 /// One micro step as seen by monitors.
@@ -686,7 +695,13 @@ pub fn patched_session_cfg(cfg: &DevCfg) -> lorawan_device::mac::Session {
         v["uplink"]["pending_len"] = serde_json::json!(p.len());
         v["uplink"]["pending_data"] = serde_json::json!(data);
     }
-    serde_json::from_value(v).expect("patched session deserialises")
+    session_from_value(v)
+}
+
+/// (restoring is the harness's way into a state, not the subject: any of the input forms will do)
+fn session_from_value(v: serde_json::Value) -> lorawan_device::mac::Session {
+    let text = v.to_string();
+    serde_json::from_value(v).or_else(|_| serde_json::from_str(&text)).expect("patched session deserialises")
 }
 
 pub fn patched_session(fcnt_up: Option<u32>, fcnt_down: Option<Option<u32>>, adr_ack_cnt: Option<u32>) -> lorawan_device::mac::Session {
@@ -701,7 +716,7 @@ pub fn patched_session(fcnt_up: Option<u32>, fcnt_down: Option<Option<u32>>, adr
     if let Some(a) = adr_ack_cnt {
         v["adr_ack_cnt"] = serde_json::json!(a);
     }
-    serde_json::from_value(v).expect("patched session deserialises")
+    session_from_value(v)
 }
 
 impl<const PW: u8, const GAIN: i8, const D: usize> NbCore<PW, GAIN, D> {
@@ -774,9 +789,8 @@ impl<const PW: u8, const GAIN: i8, const D: usize> NbCore<PW, GAIN, D> {
         let dev = &mut self.dev;
         let r = match ev {
             Ev::Join => {
-                let r = catch(|| {
-                    resp_of(dev.join(JoinMode::OTAA { deveui: DevEui::from(DEVEUI), appeui: AppEui::from(APPEUI), appkey: AppKey::from(APPKEY) }))
-                });
+                let (de, ae, ak) = creds(self.net.creds);
+                let r = catch(|| resp_of(dev.join(JoinMode::OTAA { deveui: DevEui::from(de), appeui: AppEui::from(ae), appkey: AppKey::from(ak) })));
                 r
             }
             Ev::Send { confirmed, port, len } => {
@@ -823,6 +837,10 @@ impl<const PW: u8, const GAIN: i8, const D: usize> NbCore<PW, GAIN, D> {
             }
             Ev::Rng(p) => {
                 self.rng.set_prefix(p.clone());
+                Ok(Resp::NoUpdate)
+            }
+            Ev::UseCreds(k) => {
+                self.net.creds = *k;
                 Ok(Resp::NoUpdate)
             }
             Ev::Persist => {
